@@ -29,7 +29,8 @@
 From AV Require Import Base.Bytes Base.Outcome Hash.HashModel Tree.Heap Tree.Ops Tree.Script Tree.Load Tree.Observe
   Tree.MergeSpec Tree.MergePure Tree.LoadProofs Tree.LoadProofsWalk Tree.LoadProofsRefuted
   Tree.MergePureProofsBase Tree.MergePureProofs Tree.MergePureProofsMain Tree.MergePureProofsKeys
-  Tree.LoadRefineBase Tree.LoadRefinePure Tree.LoadRefineHeap Tree.LoadRefineMain Tree.LoadRefineGood Tree.LoadRefineTop.
+  Tree.LoadRefineBase Tree.LoadRefinePure Tree.LoadRefineHeap Tree.LoadRefineMain Tree.LoadRefineGood Tree.LoadRefineTop
+  Tree.LoadEffects.
 From AV Require Xml.Lexer Xml.Parser.
 Open Scope N_scope.
 
@@ -289,3 +290,43 @@ Theorem C09_merge_union_views :
                (covers gs M -> hperm (erase ta) (expected None M)) /\
                (forall f, In f gs -> hperm (hproj f (erase ta)) (pview f M)).
 Proof. exact heap_union. Qed.
+
+(* ====================================================================== C11, load half: the rejected merge, precisely *)
+(* ---- what a merge rejected with InvalidFileMerge has changed when it is rejected [U: every table set, world, model,
+        parsed tree]: the only error is InvalidFileMerge; the allocation bound, the files and ALL model records (root,
+        file list, both index maps: they are only filled after a successful merge) are untouched; no node appears or
+        disappears; and for every node, name, type, attributes and comment are the same, the parent is the same or an
+        element (an imported element of the new tree), the content list only got elements inserted (ContentEff: nothing
+        removed, nothing reordered, no character data touched), and the file membership only changed by steps
+        "empty (inherited) -> explicit" (restrict_a_only on the elements that only the model has) and "add the new
+        file" (FilesEff).  The rollback Element::remove_from_file(new file) then removes the new file from every
+        membership and deletes the elements that become empty (the imported ones); it cannot undo the first kind of
+        step: C11_load_merge_conflict_residue, known finding C11-load-merge-rollback (with the index entries the
+        deletion of an imported element takes with it when an element of the model has the same path). *)
+Theorem C11_load_merge_conflict_effects :
+  forall (T : tables) (LATEST name_definition_ref : N) (m new_root nf : N) (w : world) (e : err) (w' : world),
+    merge_file_data T LATEST name_definition_ref m new_root nf w = Val (ER e, w') ->
+    e = InvalidFileMerge /\
+    (w_next w' = w_next w /\ w_files w' = w_files w /\ w_models w' = w_models w /\
+     forall i, match w_nodes w i, w_nodes w' i with
+               | Some n, Some n' => NodeEff nf n n'
+               | None, None => True
+               | _, _ => False
+               end).
+Proof. exact merge_conflict_effects. Qed.
+
+(* the same bound for every merge, whatever its outcome *)
+Theorem C11_merge_effects :
+  forall (T : tables) (LATEST name_definition_ref : N) (nf : N) (fuel : nat) (pa : id) (files : list N) (pb : id)
+         (w : world) (r : out unit) (w' : world),
+    merge_element T LATEST name_definition_ref fuel pa files pb nf w = Val (r, w') -> WorldEff nf w w'.
+Proof. exact (fun T L d nf fuel pa files pb => merge_effects T L d nf fuel pa files pb). Qed.
+
+(* the residue of a rejected load on the tiny tables: the explicit membership of the element that only the model has;
+   files and path index are as before *)
+Theorem C11_load_merge_conflict_residue :
+  exists (w : world) (e : Parser.etree) (w' : world) (i : id) (n : node),
+    TinyM.load_tree "b" e w = Val (ER InvalidFileMerge, w') /\ w_nodes w i = Some n /\ n_files n = [] /\
+    w_nodes w' i = Some (set_files n [0]) /\
+    w_files w' = w_files w /\ option_map m_idents (nth_opt (w_models w') 0) = option_map m_idents (nth_opt (w_models w) 0).
+Proof. exact load_merge_conflict_residue. Qed.
